@@ -350,6 +350,11 @@ func c19Events(nlive int) []c19ev {
 					func() { f(one(), 2.0, tensor.WithReuse(one())) },
 				} {
 					call(func() error { g(); return nil }) // a panicking form (recorded under C07) must not hide the others
+					// judged after every single call: the early-return paths of the one-element cases drop their header, which
+					// would silently swallow a header that an earlier call put into the pool twice
+					if _, dup := tensor.VerifHeaderPoolDup(); dup > 0 {
+						return -1, [][]int{{-998}}, true
+					}
 				}
 			}
 			return -1, nil, true
@@ -809,6 +814,10 @@ func c19Explore(r *core.Run, label string, evs []c19ev, depth, maxStates int) {
 						for _, s := range slices {
 							if len(s) == 1 && s[0] == -999 {
 								add("caller-slice-mutated", "the caller's slice list was modified")
+								continue
+							}
+							if len(s) == 1 && s[0] == -998 {
+								add("double-return", "a scalar header is in the header pool twice: two later scalar operands would share it")
 								continue
 							}
 							full := s[:cap(s)]
